@@ -1103,11 +1103,10 @@ class Fxp():
                     and isinstance(self.scale, (int, np.integer)) and isinstance(self.bias, (int, np.integer)) \
                     and max(abs(int(np.max(val))), abs(int(np.min(val)))) * abs(int(self.scale)) + abs(int(self.bias)) >= 2**63:
                 val = np.asarray(val).astype(object)    # (the integer result does not fit in 64 bits: python integers)
-            if isinstance(self.scale, np.integer) and isinstance(self.bias, (int, np.integer)) or isinstance(self.bias, np.integer) and isinstance(self.scale, (int, np.integer)):
-                # (numpy integer parameters as python integers: a python integer plus a numpy integer is evaluated in the numpy type and wraps around)
-                val = val * int(self.scale) + int(self.bias)
-            else:
-                val = val * self.scale + self.bias
+            # (numpy integer parameters as python integers: a python integer times or plus a numpy integer is evaluated in the numpy type and wraps around)
+            _scale = int(self.scale) if isinstance(self.scale, np.integer) else self.scale
+            _bias = int(self.bias) if isinstance(self.bias, np.integer) else self.bias
+            val = val * _scale + _bias
         return val
 
     def get_val(self, dtype=None, index=None, item=None):
